@@ -38,7 +38,7 @@ PY
 S=/tmp/regress-known; rm -rf "$S"; mkdir -p "$S/replays" "$S/evidence" "$S/regress"
 echo '{"_comment":"empty on purpose","findings":[]}' > "$S/known_findings.json"
 ./check --build || exit 2
-for PS in "C14 custom_fonts" "C15 layout_spaced_fonts" "C02 text_spaced_fonts" "C18 sectors_random"; do
+for PS in "C14 custom_fonts" "C15 layout_spaced_fonts" "C02 text_spaced_fonts" "C18 sectors_random" "C06 rounded_rectangle"; do
   set -- $PS
   rm -f "$S/replays/"*.json
   VERIF_ROOT="$S" ./harness/target/release/egverif run "$1" quick --only "$2" > "$S/log" 2>&1
